@@ -2142,24 +2142,27 @@ class _QuietCtx:
 
 
 def _fresh_main():
-    """entry point of the confirmation subprocess: run the dumps read from stdin in order, print the failed
-    clauses of the LAST one as JSON."""
+    """entry point of the confirmation subprocess: run the dumps read from stdin in order, stop at the first one
+    with a failed clause, print its index and the failed clauses as JSON."""
     import json
     import sys
     import warnings
     warnings.filterwarnings('ignore')
     cases = [case_from_replay(x) for x in json.load(sys.stdin)]
     ctx = _QuietCtx()
-    found = []
+    res = [-1, []]
     for j, c in enumerate(cases):
         found = []
         oracle_case(ctx, c, lambda key, what, rp: found.append([key, what]))
-    sys.stdout.write('\n@@RESULT@@' + json.dumps(found))
+        if found:
+            res = [j, found]
+            break
+    sys.stdout.write('\n@@RESULT@@' + json.dumps(res))
 
 
-def fails_in_fresh_process(cases):
-    """do the dumps `cases`, run in this order in a NEW interpreter on the same tree, make the last one fail?
-    -> list of [key, what] (empty: no) | None (could not be run)."""
+def first_failure_in_fresh_process(cases):
+    """run the dumps `cases` in this order in a NEW interpreter on the same tree.
+    -> (index of the first dump with a failed clause, [[key, what], ...]) | (-1, []) | None (could not be run)."""
     import json
     import os
     import subprocess
@@ -2170,58 +2173,78 @@ def fails_in_fresh_process(cases):
     try:
         r = subprocess.run([sys.executable, '-c', 'from harness.props import c07; c07._fresh_main()'],
                            input=json.dumps([case_replay(c) for c in cases]), capture_output=True, text=True,
-                           env=env, timeout=600, cwd=str(cm.VERIF) if hasattr(cm, 'VERIF') else None)
+                           env=env, timeout=600, cwd=str(cm.VERIF))
     except Exception:  # noqa
         return None
     if '@@RESULT@@' not in r.stdout:
         return None
-    return json.loads(r.stdout.split('@@RESULT@@', 1)[1])
+    j, found = json.loads(r.stdout.split('@@RESULT@@', 1)[1])
+    return j, found
 
 
-_confirm_budget = {'left': 6}
+_session = {'confirm_left': 4, 'fresh_left': 14, 'polluted': False}
+_alone_keys = set()
+_history_dependent = []
+
+
+def report_sequence(report, cases, j, found):
+    prefix = cases[:j + 1]
+    for key, what in found:
+        report('session:' + key, f'dump {j + 1} of a sequence of {j + 1} dumps in one process '
+                                 f'(styles {[x["style"] for x in prefix]}; the same dump alone in a fresh process is '
+                                 f'fine): {what}', {'op': 'session', 'cases': [case_replay(x) for x in prefix]})
 
 
 def oracle_session(ctx, cases, report):
     """run the dumps of a session in order.  A failed clause is confirmed in a fresh interpreter before it is
     reported, so that the replay stored with it reproduces: the failing dump alone if that fails on its own, else
-    the sequence up to it (state kept between calls), else (it depends on calls made earlier in this process by
-    other parts of the run) the search goes on to a sequence that reproduces from scratch."""
+    the sequence up to it (state kept between calls).  If neither reproduces, the failure depends on calls made
+    earlier in this process by other parts of the run: from then on the sequences are executed in fresh
+    interpreters only, until one fails from scratch."""
+    if _session['polluted']:
+        if _session['fresh_left'] <= 0:
+            return
+        _session['fresh_left'] -= 1
+        r = first_failure_in_fresh_process(cases)
+        ctx.stats.case('oracle:session-fresh', repr([c['style'] for c in cases]), nontrivial=True, sample=None)
+        if r and r[0] >= 0:
+            j, found = r
+            alone = first_failure_in_fresh_process([cases[j]]) if j > 0 else (0, found)
+            if alone and alone[0] >= 0:
+                for key, what in found:
+                    report(key, what, {'op': cases[j]['kind'], 'case': case_replay(cases[j])})
+            else:
+                report_sequence(report, cases, j, found)
+            _session['fresh_left'] = 0
+        return
     for j, c in enumerate(cases):
         found = []
         oracle_case(ctx, c, lambda key, what, rp: found.append((key, what, rp)))
         if not found:
             continue
-        prefix = cases[:j + 1]
         keys = {k for k, _w, _r in found}
-        if keys & _alone_keys or _confirm_budget['left'] <= 0:
+        if keys & _alone_keys or _session['confirm_left'] <= 0:
             # the same clause already failed for a dump on its own (or no confirmation left): plain report
             for key, what, rp in found:
                 report(key, what, rp)
             return
-        _confirm_budget['left'] -= 1
-        alone = fails_in_fresh_process([c])
-        if alone or alone is None:
+        _session['confirm_left'] -= 1
+        alone = first_failure_in_fresh_process([c])
+        if alone is None or alone[0] >= 0:
             _alone_keys.update(keys)
             for key, what, rp in found:
                 report(key, what, rp)
             return
-        seq = fails_in_fresh_process(prefix)
-        if seq == []:
-            ctx.extra['session_history_dependent'] = ctx.extra.get('session_history_dependent', 0) + 1
-            ctx.notes.append(f'C07 session: dump of style {c["style"]!r} fails in this process but neither alone nor after '
-                             f'{[x["style"] for x in prefix[:-1]]} in a fresh one: {found[0][1][:200]}')
-            _history_dependent.append((found, prefix))
+        seq = first_failure_in_fresh_process(cases[:j + 1])
+        if seq is not None and seq[0] >= 0:
+            report_sequence(report, cases, seq[0], seq[1])
             return
-        for key, what, rp in found:
-            report('session:' + key, f'dump {j + 1} of a sequence of {j + 1} dumps in one process '
-                                     f'(styles {[x["style"] for x in prefix]}; the same dump alone in a fresh process is '
-                                     f'fine): {what}',
-                   {'op': 'session', 'cases': [case_replay(x) for x in prefix], 'real': rp.get('real')})
+        ctx.extra['session_history_dependent'] = ctx.extra.get('session_history_dependent', 0) + 1
+        ctx.notes.append(f'C07 session: dump of style {c["style"]!r} fails in this process but neither alone nor after '
+                         f'{[x["style"] for x in cases[:j]]} in a fresh one: {found[0][1][:200]}')
+        _history_dependent.append((found, cases[:j + 1]))
+        _session['polluted'] = True
         return
-
-
-_alone_keys = set()
-_history_dependent = []
 
 
 def search(ctx, broken):
@@ -2231,7 +2254,7 @@ def search(ctx, broken):
     # failures that a single-call replay would not
     del _history_dependent[:]
     _alone_keys.clear()
-    _confirm_budget['left'] = 6
+    _session.update(confirm_left=4, fresh_left=14, polluted=False)
     nviol = len(ctx.violations)
     for _ in range(ctx.n(25, 400) * mult):
         oracle_session(ctx, gen_session(rng), ctx.violate)
@@ -2240,7 +2263,6 @@ def search(ctx, broken):
         found, prefix = _history_dependent[0]
         ctx.violate('session:history:' + found[0][0], 'depends on calls made earlier in the process: ' + found[0][1],
                     {'op': 'search', 'styles': [x['style'] for x in prefix]})
-    nd, nu, npo, nt = (ctx.n(260, 5000) * mult, ctx.n(150, 3000) * mult, ctx.n(150, 3000) * mult, ctx.n(50, 800) * mult)
     report = ctx.violate
     # every atom style x unit style once, deterministically, before the random stream
     base = []
